@@ -1095,6 +1095,22 @@ impl BinderH {
     }
     fn dump(&self, idx: &[u32], keys: &[usize], what: &str) -> Result<(Vec<usize>, Vec<(bool, u32)>), Violation> {
         let e = &self.e;
+        let huge = idx.len() > 1000 || keys.len() > 1000;
+        if huge {
+            // the thorough tier reads all 10 000 indices of a capacity scenario in one read-only frame
+            envx::raise_budget(e, 1_000_000_000_000_000, 1_000_000_000_000_000); // (also resets the counters)
+        }
+        let r = self.dump_inner(idx, keys, what);
+        if huge && std::env::var("VERIF_RSS").is_ok() {
+            eprintln!("huge dump: ok={} cpu={} mem={}", r.is_ok(), e.cost_estimate().budget().cpu_instruction_cost(), e.cost_estimate().budget().memory_bytes_cost());
+        }
+        if huge {
+            envx::raise_budget(e, 200_000_000_000, 6_000_000_000);
+        }
+        r
+    }
+    fn dump_inner(&self, idx: &[u32], keys: &[usize], what: &str) -> Result<(Vec<usize>, Vec<(bool, u32)>), Violation> {
+        let e = &self.e;
         let mut iv: SVec<u32> = SVec::new(e);
         for i in idx {
             iv.push_back(*i);
@@ -1267,7 +1283,7 @@ pub fn run_binder(case: &BCase, ctx: &mut Ctx) -> R {
     if std::env::var("VERIF_RSS").is_ok() { eprintln!("binder after first check rss={} MB", rss()); }
     let n_ops = case.ops.len();
     for (step, op) in case.ops.iter().enumerate() {
-        if std::env::var("VERIF_RSS").is_ok() { eprintln!("binder step {step} rss={} MB", rss()); }
+        if std::env::var("VERIF_RSS").is_ok() { eprintln!("binder step {step} rss={} MB cpu={} mem={}", rss(), e.cost_estimate().budget().cpu_instruction_cost(), e.cost_estimate().budget().memory_bytes_cost()); }
         let what = format!("step {step} {:?}", op);
         let absent: Vec<usize> = (0..B_UNI).filter(|k| !h.set.contains(k)).collect();
         let removed: Vec<usize> = h.removed.iter().copied().filter(|k| !h.set.contains(k)).collect();
